@@ -16,6 +16,9 @@ use std::panic::AssertUnwindSafe;
 pub const HEADER: &str =
     "From Coq Require Import QArith.\nFrom LV Require Import Base.Prelude Model.Bezier Checker.Region Checker.StrokeCover Run.C06.\nOpen Scope Q_scope.";
 
+pub const HEADER_PLANE: &str =
+    "From Coq Require Import QArith.\nFrom LV Require Import Base.Prelude Model.Bezier Checker.Region Checker.StrokeCover Checker.Slab Checker.CoverPlane Run.C06.\nOpen Scope Q_scope.";
+
 type P = (f64, f64);
 
 fn sub(a: P, b: P) -> P {
@@ -82,6 +85,10 @@ pub fn main(args: &Args) -> std::io::Result<()> {
     let mut st = Stats::default();
     let mut w = ShardWriter::new(&args.out, "c06_cases", args.shards, HEADER, "bad_cases");
     w.disabled = args.direct_only();
+    // small strokes are also decided at EVERY point of the plane (slab lift, C06_plane_sub_sound)
+    let mut wp = ShardWriter::new(&args.out, "c06plane_cases", args.shards, HEADER_PLANE, "plane_sub_undecided");
+    wp.disabled = args.direct_only();
+    let mut plane_budget = if args.thorough() { 96 } else { 16 };
     let mut idx = std::fs::File::create(args.out.join("c06_index.txt"))?;
     let mut rng = Rng::new(args.seed ^ 0x06);
     let n = if args.thorough() { 6000 } else { 800 };
@@ -89,7 +96,16 @@ pub fn main(args: &Args) -> std::io::Result<()> {
     let mut id = 0usize;
     for it in 0..n {
         let width = *rng.pick(&[0.5f32, 1.0, 2.0]);
-        let (pts, closed) = gen_polyline(&mut rng, width as f64);
+        let (mut pts, closed) = gen_polyline(&mut rng, width as f64);
+        // one case in four far from the origin (all coordinates stay multiples of 1/8, exact in f32): the stroke of
+        // a translated path is the translated stroke, up to the f32 resolution there (2e-5 * extent in the margin)
+        if it % 4 == 3 {
+            let o = *rng.pick(&[(2500.5f32, 1800.25f32), (4096.5, 3000.25), (-3000.0, 5000.5), (1000.0, -7000.75)]);
+            for p in pts.iter_mut() {
+                *p = (p.0 + o.0, p.1 + o.1);
+            }
+            st.inc("far_from_origin");
+        }
         let spec = PathSpec::from_polylines(&[pts.clone()], &[closed]);
         let cfg = StrokeCfg {
             join: *rng.pick(&[LineJoin::Miter, LineJoin::MiterClip, LineJoin::Round, LineJoin::Bevel]),
@@ -232,14 +248,20 @@ pub fn main(args: &Args) -> std::io::Result<()> {
             }
             let gp32 = |p: Point| format!("({}, {})", gq32(p.x), gq32(p.y));
             writeln!(idx, "{}\t{}", id, label).ok();
-            w.push(format!(
+            let lit = format!(
                 "(mkCC {} {} {} {} {})",
                 id,
                 glist(must.iter().map(|m| gpoly(m))),
                 glist(segs_q.into_iter()),
                 glist(rec.tris.iter().map(|t| format!("({}, {}, {})", gp32(pos[t[0] as usize]), gp32(pos[t[1] as usize]), gp32(pos[t[2] as usize])))),
                 gq64(((reach * reach) * 1024.0).ceil() / 1024.0)
-            ));
+            );
+            if plane_budget > 0 && rec.tris.len() <= 6 && must.len() <= 3 {
+                plane_budget -= 1;
+                wp.push(lit.clone());
+                st.inc("whole_plane_cases");
+            }
+            w.push(lit);
             id += 1;
         }
         if it % 50 == 0 {
@@ -247,5 +269,6 @@ pub fn main(args: &Args) -> std::io::Result<()> {
         }
     }
     w.finish()?;
+    wp.finish()?;
     st.write(&args.out.join("c06_stats.json"))
 }
